@@ -1,6 +1,7 @@
 SPECIFICATION TraceSpec
 CONSTANTS AggReplace = TRUE
  AggKeepFirst = TRUE
+ EarlyAdd = FALSE
 CONSTRAINT Mark
 ACTION_CONSTRAINT ActOK
 POSTCONDITION Report
